@@ -45,6 +45,13 @@ func c07(r *Report) {
 		if hcr := r.Use("", "Proxy.handleConnectRequest"); hcr != nil {
 			tunnelEOSRule(r, hcr, tunnelCopiers(hcr))
 		}
+		// closing one (idle) connection at shutdown does not cut the response of another: a shaped
+		// connection closes its own buckets only
+		shapedCloseOwnBucketsRule(r)
+		// the shutdown signal is made once, with the proxy: nothing replaces the channel that running
+		// relays and handlers watch (a Serve that re-creates it revives a closed proxy and orphans
+		// every session started before)
+		fieldWritersRule(r, "", "Proxy", "closing", map[string]bool{"M.NewProxy": true}, "the shutdown channel is replaced after construction: sessions started before keep watching the old one and are never told to stop, and a closed proxy serves again")
 		// an HTTP/2 tunnel's handler finishes only when both relay directions have: the relay call
 		// joins its goroutines before it returns (a return on the stop signal alone lets Close return
 		// while a direction is still inside a stream processor)
